@@ -727,7 +727,12 @@ def _expand_decay_modes(
         fsp_options: list[list[str]] = []
         for fsp in _get_fs(mode):
             if isinstance(fsp, dict):
-                fsp_options.append(_get_modes(fsp))
+                # A particle with no decay modes (empty "Decay" block) is stable
+                fsp_name = next(iter(fsp.keys()))
+                fsp_options.append(
+                    _get_modes(fsp)
+                    or [aliases.get(fsp_name, fsp_name) if aliases else fsp_name]
+                )
             elif isinstance(fsp, str):
                 fsp_options.append([fsp])
         for expanded_mode in product(*fsp_options):
